@@ -173,6 +173,8 @@ func runJobQueue(p *core.Prog) *core.Result {
 			res.Bad(key, p.Pos(f.Pos()), "settling/subscribing "+bad+": a reaction must only ever run as a queued job, in queue order")
 		}
 	}
+	finallyThroughResolve(p, res)
+	drainBuffers(p, res)
 	return res
 }
 
